@@ -31,7 +31,7 @@ pub enum Outcome {
 }
 
 #[derive(Default, Debug)]
-pub struct Stats { pub spawns: u64, pub restarts_after_death: u64, pub stalls: u64, pub isolated_reruns: u64 }
+pub struct Stats { pub spawns: u64, pub restarts_after_death: u64, pub stalls: u64, pub isolated_reruns: u64, pub startup_stalls: u64 }
 
 static SERIAL: AtomicU64 = AtomicU64::new(0);
 
@@ -91,12 +91,14 @@ impl Sandbox {
         let cleanup = || { for p in [&bpath, &lpath, &epath] { let _ = std::fs::remove_file(p); } let _ = std::fs::remove_file(format!("{lpath}.in.tinydiff")); };
         let mut start = 0usize;
         let mut rounds = 0usize;
+        let mut startup_stalls = 0u32;
+        let mut stall = self.limits.stall;
         while start < n {
             rounds += 1;
-            if rounds > n + 2 { cleanup(); return Err("sandbox made no progress".into()); }
+            if rounds > n + 6 { cleanup(); return Err("sandbox made no progress".into()); }
             let _ = std::fs::remove_file(&lpath);
             stats.spawns += 1;
-            let end = match self.spawn_and_wait(&bpath, &lpath, &epath, start, n, self.limits.stall) { Ok(e) => e, Err(e) => { cleanup(); return Err(e); } };
+            let end = match self.spawn_and_wait(&bpath, &lpath, &epath, start, n, stall) { Ok(e) => e, Err(e) => { cleanup(); return Err(e); } };
             let text = String::from_utf8_lossy(&std::fs::read(&lpath).unwrap_or_default()).to_string();
             let mut open: Option<(usize, bool)> = None;
             let mut last_done: Option<usize> = None;
@@ -127,7 +129,16 @@ impl Sandbox {
                 }
                 RunEnd::Stalled => {
                     stats.stalls += 1;
-                    let Some((i, in_write)) = open else { cleanup(); return Err(format!("child stalled without an open input after input {last_done:?} of {n}")); };
+                    let Some((i, in_write)) = open else {
+                        // nothing was open: the child was starved before its first input / between two inputs (a machine-level
+                        // stall, not an observation about any input). Go on after the last finished input with 10x the patience.
+                        startup_stalls += 1;
+                        stats.startup_stalls += 1;
+                        if startup_stalls > 3 { cleanup(); return Err(format!("child stalled {startup_stalls} times without an open input after input {last_done:?} of {n}")); }
+                        if let Some(d) = last_done { if d + 1 > start { start = d + 1; } }
+                        stall = self.limits.stall * 10;
+                        continue;
+                    };
                     // isolated re-runs with 10x the budget
                     let mut finished: Vec<Outcome> = vec![];
                     let mut stalled = 0;
